@@ -35,6 +35,8 @@ claimed = {
          'bounded schedules at blocking points/Gosched/explicit choice points; instruction-level preemption outside', "§0 C13"),
  "C14": ('ConnState sequences of the real ServeConn loop for 0..2/0..3 requests from 5 kinds, delivered one per read or all in one read, the last one possibly malformed or cut off, optional hijack, ReduceMemoryUsage on/off: regular-language check and Active-after-a-byte',
          'bounds: finite connection grammar; two known findings excluded (ServeConn never reports StateNew; first StateActive precedes the first byte)', "§0 C14"),
+ "C15": ("the real Serve / worker pool / serve loop / Shutdown on the engine's scheduler with virtual time over a scripted listener: in-flight slow handlers, pipelined requests and an idle keep-alive connection at the moment Shutdown is called: after it returns nil the listener is closed, Serve has returned, no handler runs, every started handler's response is on the wire, Done was closed for handlers that outlived the start of shutdown, and idle connections were closed, not waited for",
+         "bounded cooperative schedules, choices only; CloseOnShutdown, context deadlines, hijacks outside", "§0 C15"),
  "C16": ("the real TimeoutHandler and serve loop on the engine's scheduler with virtual time: a wrapped handler that outlives its timeout and keeps rewriting its RequestCtx (status, headers with symbolic bytes, body, Connection, request URI) before, during and after the handling of the next request on the connection: the first response is exactly the timeout response, nothing written later reaches the wire, the next request is served normally — or answered 429 exactly when Concurrency is 1 and the abandoned handler still holds the slot",
          "sleep-point interleavings only (no instruction-level preemption: that is C37); direct writes to ctx.Conn() outside", "§0 C16"),
  "C17": ('the real ServeConn loop with a hijacking handler (GET, POST with a body, POST with Expect: 100-continue): the response is complete (or absent with HijackSetNoResponse) before the hijack handler runs, the handler reads exactly the ≤3/≤6 arbitrary trailing bytes in order whether they were buffered with the request, arrive later or are split, and the connection is closed after the handler unless KeepHijackedConns',
@@ -78,7 +80,6 @@ claimed = {
 }
 
 na = {
- "C15": "not built: Shutdown needs a listener, Serve's accept loop and wall-clock polling; not brought up under the interpreter in this build",
  "C22": "codec internals (compress/flate, brotli, zstd) are loops over whole buffers that a bit-blasting back end cannot decide, and the abstraction of codecs as uninterpreted functions plus the stackless queue oracle was not built",
  "C35": "not built: multipart parsing (mime/multipart) and temp-file interception were not brought up under the interpreter",
  "C36": "the oracle is net/http's own server; differential behaviour of two full HTTP servers is outside bounded symbolic execution of this code",
